@@ -268,7 +268,7 @@ def execute(mod, tier, seed, only_builds=None):
 
 
 def write_replay(prop, v):
-    d = os.path.join(VERIF, "replays")
+    d = os.environ.get("VERIF_REPLAY_DIR") or os.path.join(VERIF, "replays")
     os.makedirs(d, exist_ok=True)
     blob = json.dumps(
         {"property": prop, "build": v.get("build"), "sig": v.get("sig"), "msg": v.get("msg"),
@@ -364,8 +364,9 @@ def main(argv=None):
         "wall_s": round(wall, 2),
         "violations": sum(len(v) for v in new.values()),
     }
-    os.makedirs(os.path.join(VERIF, "evidence"), exist_ok=True)
-    with open(os.path.join(VERIF, "evidence", "%s.json" % prop), "w") as f:
+    evdir = os.environ.get("VERIF_EVIDENCE_DIR") or os.path.join(VERIF, "evidence")
+    os.makedirs(evdir, exist_ok=True)
+    with open(os.path.join(evdir, "%s.json" % prop), "w") as f:
         json.dump(ev, f, indent=1, sort_keys=True, default=repr)
         f.write("\n")
     print(
